@@ -138,6 +138,15 @@ func (w *world) ensureBaseline() bool {
 			w.r.Count("canaries_written", 1)
 		}
 	}
+	// a tag on A's canary object (set through bucket A's own tagging route): readable only via A
+	tagMarker := "CANARYTAG-bucket-a-" + w.nonce
+	if tg, err := w.s3.Do("GET", "/"+A+"/canary-a.txt?tagging=", nil, nil); err != nil || !strings.Contains(string(tg.Body), tagMarker) {
+		body := `<Tagging xmlns="http://s3.amazonaws.com/doc/2006-03-01/"><TagSet><Tag><Key>secret</Key><Value>` + tagMarker + `</Value></Tag></TagSet></Tagging>`
+		if resp, err := w.s3.Do("PUT", "/"+A+"/canary-a.txt?tagging=", nil, []byte(body)); err != nil || resp.Status/100 != 2 {
+			w.r.Inconclusive(fmt.Sprintf("cannot tag the canary of bucket A: %v", err))
+			return false
+		}
+	}
 	// in-progress uploads (internal areas of A and B)
 	mA, mB := mk("uploads-of-a"), mk("uploads-of-b")
 	chk := func(bucket, id, marker string) bool {
@@ -163,7 +172,7 @@ func (w *world) ensureBaseline() bool {
 		}
 		w.idB = id
 	}
-	w.canaries = append(files[:6:6],
+	w.canaries = append(append(files[:6:6], canary{Path: "/buckets/" + A + "/canary-a.txt (tag)", Marker: tagMarker, Home: A}),
 		canary{Path: "/buckets/" + A + "/.uploads/" + w.idA + "/0001.part", Marker: mA, Home: A, Internal: true},
 		canary{Path: "/buckets/" + B + "/.uploads/" + w.idB + "/0001.part", Marker: mB, Home: B, Internal: true})
 	return true
@@ -215,7 +224,7 @@ type request struct {
 	SrcBkt  string   `json:"named_source_bucket,omitempty"`
 }
 
-const taggingXML = `<Tagging><TagSet><Tag><Key>hostile</Key><Value>tag</Value></Tag></TagSet></Tagging>`
+const taggingXML = `<Tagging xmlns="http://s3.amazonaws.com/doc/2006-03-01/"><TagSet><Tag><Key>hostile</Key><Value>tag</Value></Tag></TagSet></Tagging>`
 
 func (w *world) materialise(c hcase) (request, bool) {
 	v := w.subst(c.Tmpl)
@@ -384,6 +393,7 @@ func (w *world) run(c hcase) {
 		}
 		violation(sig(class), detail(msg, paths))
 	}
+	fmt.Printf("trace %d %s %s %s status=%d created=%v removed=%v changed=%v\n", w.seq, c.Route, c.Vector, c.Pattern, status, trunc(created), trunc(removed), trunc(changed))
 	if len(created)+len(removed)+len(changed) > 0 {
 		r.Count("requests_with_namespace_effect", 1)
 		if len(report) == 0 {
@@ -432,6 +442,9 @@ func (w *world) run(c hcase) {
 	if damaged {
 		// undo: drop what appeared outside B or inside a polluted destination, rewrite canaries
 		for _, p := range created {
+			if strings.Contains(p+"/", "/../") || strings.Contains(p+"/", "/./") {
+				continue // the filer cleans dir+name on delete: removing an entry literally named '.' or '..' would hit its parent
+			}
 			if !inB(p) || c.Vector == "copy-source" {
 				i := strings.LastIndex(p, "/")
 				dir := p[:i]
@@ -458,7 +471,7 @@ func (w *world) run(c hcase) {
 					under = true
 				}
 			}
-			if under || !inB(p) || p == "/buckets/"+B+"/.uploads" {
+			if under || !inB(p) || p == "/buckets/"+B+"/.uploads" || strings.Contains(p+"/", "/../") || strings.Contains(p+"/", "/./") {
 				continue
 			}
 			i := strings.LastIndex(p, "/")
@@ -484,6 +497,13 @@ func (w *world) run(c hcase) {
 			w.snap = w.dump()
 		}
 	}
+}
+
+func trunc(l []string) []string {
+	if len(l) > 6 {
+		return append(append([]string{}, l[:6]...), fmt.Sprintf("...(%d)", len(l)))
+	}
+	return l
 }
 
 func short(rq request) request {
@@ -746,8 +766,11 @@ func main() {
 	if f := os.Getenv("C29_ONLY"); f != "" { // triage aid: route substring filter
 		var keep []hcase
 		for _, cse := range cases {
-			if strings.Contains(cse.Route+"|"+cse.Vector+"|"+cse.Pattern, f) {
-				keep = append(keep, cse)
+			for _, sub := range strings.Split(f, ",") {
+				if strings.Contains(cse.Route+"|"+cse.Vector+"|"+cse.Pattern, sub) {
+					keep = append(keep, cse)
+					break
+				}
 			}
 		}
 		cases = keep
